@@ -29,8 +29,8 @@ m("c01-backing-container-mut", "C01", "violation", "sig:",
 # ---------------- C09
 m("c09-swallow-signal", "C09", "violation", "next_expanded",
   [("crates/texlang/src/vm/streams.rs",
-    "                vm.stack_push(token, error::OperationKind::Expansion);\n                let err_or = command(token, ExpansionInput::new(vm));\n                vm.stack_pop();\n                err_or?;\n                next_expanded(vm)",
-    "                vm.stack_push(token, error::OperationKind::Expansion);\n                let err_or = command(token, ExpansionInput::new(vm));\n                vm.stack_pop();\n                let _ = err_or;\n                next_expanded(vm)")])
+    "                    vm.stack_push(token, error::OperationKind::Expansion);\n                    let err_or = command(token, ExpansionInput::new(vm));\n                    vm.stack_pop();\n                    err_or?;\n                }\n                Some(command::Command::Macro(command)) => {",
+    "                    vm.stack_push(token, error::OperationKind::Expansion);\n                    let err_or = command(token, ExpansionInput::new(vm));\n                    vm.stack_pop();\n                    let _ = err_or;\n                }\n                Some(command::Command::Macro(command)) => {")])
 m("c09-forged-signal", "C09", "violation", "R9.2",
   [("crates/texlang-stdlib/src/sleep.rs", "use texlang::*;", "use texlang::*;\n#[allow(dead_code)]\nfn stop_now() -> texlang::vm::ShutdownSignal {\n    texlang::vm::ShutdownSignal {}\n}")])
 m("c09-push-without-pop", "C09", "violation", "push#",
@@ -88,8 +88,8 @@ m("c18-drop-shift", "C18", "violation", "HBox.shift_amount/parse",
   [("crates/boxworks/src/lang/convert.rs", "            shift_amount: self.shift_amount.value,\n            glue_ratio: self.glue_ratio.value,", "            shift_amount: Default::default(),\n            glue_ratio: self.glue_ratio.value,")])
 # ---------------- behaviour preserving
 m("bp-rename-depth", "C07", "silent", "",
-  [("crates/texlang-stdlib/src/conditional.rs", "fn false_case<S: HasComponent<Component>>(\n    original_token: token::Token,\n    input: &mut vm::ExpansionInput<S>,\n) -> txl::Result<()> {\n    let mut depth = 0;",
-    "fn false_case<S: HasComponent<Component>>(\n    original_token: token::Token,\n    input: &mut vm::ExpansionInput<S>,\n) -> txl::Result<()> {\n    let mut depth: i32 = 0;\n    let _unused_marker = ();")])
+  [("crates/texlang-stdlib/src/conditional.rs", "fn false_case<S: HasComponent<Component>>(\n    original_token: token::Token,\n    input: &mut vm::ExpansionInput<S>,\n) -> txl::Result<()> {\n    // A 64-bit counter: the depth is bounded only by the number of tokens in the input.\n    let mut depth = 0_i64;",
+    "fn false_case<S: HasComponent<Component>>(\n    original_token: token::Token,\n    input: &mut vm::ExpansionInput<S>,\n) -> txl::Result<()> {\n    let mut depth: i64 = 0;\n    let _unused_marker = ();")])
 m("bp-lexer-reorder-arms", "C03", "silent", "",
   [("crates/texlang/src/token/lexer.rs", "                CatCode::Letter => (Token::new_letter(c, raw_token.trace_key), State::MidLine),\n                CatCode::Other => (Token::new_other(c, raw_token.trace_key), State::MidLine),",
     "                CatCode::Other => (Token::new_other(c, raw_token.trace_key), State::MidLine),\n                CatCode::Letter => (Token::new_letter(c, raw_token.trace_key), State::MidLine),")])
